@@ -6,6 +6,130 @@ Import ListNotations.
 From V.C22 Require Import GenTracing ModelTracing ModelTree Proofs.
 Local Open Scope nat_scope.
 
+(* ============================================================ primitives (before Opaque) *)
+(** the leaf state reached by a sequence of well-formed leaf operations *)
+Definition Reach (s s' : st) : Prop := exists ops, wf_ops ops /\ lrun ops s = Ok s'.
+(** an "already used" error is a real second use of that object in a reachable leaf state *)
+Definition FailsAt (s : st) (e : err) : Prop :=
+  match e with
+  | EAlreadyUsed id => exists s1, Reach s s1 /\ use_wire id s1 = Err (EAlreadyUsed id)
+  | _ => True
+  end.
+Definition Sim {X} (s : st) (r : res X) (proj : X -> st) : Prop :=
+  match r with Ok x => Reach s (proj x) | Err e => FailsAt s e end.
+
+Lemma wf_ops_nil : wf_ops [].
+Proof. intros k [H|[j H]]; destruct H. Qed.
+Lemma wf_ops_app2 : forall a b, wf_ops a -> wf_ops b -> wf_ops (a ++ b).
+Proof.
+  intros a b Wa Wb k [H|[j H]]; apply in_app_or in H; destruct H as [H|H];
+    [apply Wa; left | apply Wb; left | apply Wa; right; exists j | apply Wb; right; exists j]; exact H.
+Qed.
+Lemma Reach_refl : forall s, Reach s s.
+Proof. intros s. exists []. split; [apply wf_ops_nil | reflexivity]. Qed.
+Lemma Reach_trans : forall a b c, Reach a b -> Reach b c -> Reach a c.
+Proof.
+  intros a b c [o1 [W1 R1]] [o2 [W2 R2]]. exists (o1 ++ o2). split; [apply wf_ops_app2; assumption|].
+  rewrite lrun_app, R1. exact R2.
+Qed.
+Lemma FailsAt_pre : forall s s1 e, Reach s s1 -> FailsAt s1 e -> FailsAt s e.
+Proof.
+  intros s s1 e R F. destruct e; simpl in *; auto. destruct F as [s2 [R2 U]]. exists s2. split; [eapply Reach_trans; eassumption | exact U].
+Qed.
+Lemma Sim_pre : forall X s s1 (r : res X) p, Reach s s1 -> Sim s1 r p -> Sim s r p.
+Proof. intros X s s1 [x|e] p R S; simpl in *; [eapply Reach_trans; eassumption | eapply FailsAt_pre; eassumption]. Qed.
+Lemma Sim_bind : forall X Y s (r : res X) (k : X -> res Y) p q,
+  Sim s r p -> (forall x, r = Ok x -> Sim (p x) (k x) q) -> Sim s (bind r k) q.
+Proof. intros X Y s [x|e] k p q S K; simpl in *; [eapply Sim_pre; [exact S | apply K; reflexivity] | exact S]. Qed.
+Lemma Sim_ok : forall X s (x : X) p, Reach s (p x) -> Sim s (Ok x) p.
+Proof. intros. exact H. Qed.
+Lemma Sim_err : forall X s e (p : X -> st), (forall id, e <> EAlreadyUsed id) -> Sim s (Err e) p.
+Proof. intros X s e p H. simpl. destruct e; simpl; auto. exfalso. eapply H. reflexivity. Qed.
+
+Lemma wf_all : forall (g : ty -> kind) l, (forall x, wf_kind (g x)) ->
+  wf_kind (fold_right (fun x k => let kx := g x in mkKind (copyable kx && copyable k) (droppable kx && droppable k)) (mkKind true true) l).
+Proof.
+  intros g l G. induction l as [|x l IH]; simpl; [intro; reflexivity|].
+  intros H. simpl in *. apply andb_true_iff in H. destruct H as [H1 H2].
+  apply andb_true_iff. split; [apply G; exact H1 | apply IH; exact H2].
+Qed.
+Lemma kind_of_ty_wf : forall fuel sd t, wf_kind (kind_of_ty fuel sd t).
+Proof.
+  induction fuel as [|f IH]; intros sd t; simpl; [intro; reflexivity|].
+  destruct t; try (intro; simpl in *; (reflexivity || discriminate)); apply wf_all; intros; apply IH.
+Qed.
+
+Lemma create_reach : forall k s, wf_kind k -> Reach s (snd (create k s)).
+Proof.
+  intros k s W. exists [LCreate k]. split; [|reflexivity].
+  intros k' [[H|[]]|[j [H|[]]]]; inversion H; subst; exact W.
+Qed.
+Lemma create_t_leaf : forall sd t ts id ts', create_t sd t ts = (id, ts') ->
+  (id, leaf ts') = create (kind_of_ty 8 sd t) (leaf ts) /\ otys ts' id = Some t.
+Proof.
+  intros sd t ts id ts' H. unfold create_t in H. destruct (create _ _) as [i l] eqn:C. inversion H; subst. simpl.
+  split; [reflexivity | unfold updm; rewrite Nat.eqb_refl; reflexivity].
+Qed.
+Lemma create_t_reach : forall sd t ts id ts', create_t sd t ts = (id, ts') -> Reach (leaf ts) (leaf ts').
+Proof.
+  intros sd t ts id ts' H. apply create_t_leaf in H. destruct H as [H _].
+  pose proof (create_reach (kind_of_ty 8 sd t) (leaf ts) (kind_of_ty_wf _ _ _)) as R. rewrite <- H in R. exact R.
+Qed.
+Lemma use_wire_err_id : forall id s j, use_wire id s = Err (EAlreadyUsed j) -> j = id.
+Proof.
+  intros id s j H. unfold use_wire in H. destruct (objs s id); [|discriminate].
+  destruct (use_raises _ _ _); [inversion H; reflexivity|].
+  destruct (use_pops _ _ _); [destruct (dict_pop _ _)|]; discriminate.
+Qed.
+Lemma use_wire_sim : forall id s, Sim s (use_wire id s) (fun x => x).
+Proof.
+  intros id s. destruct (use_wire id s) as [s'|e] eqn:U; simpl.
+  - exists [LUse id]. split; [intros k [[H|[]]|[j [H|[]]]]; discriminate | rewrite lrun_single; exact U].
+  - destruct e; simpl; auto. pose proof (use_wire_err_id _ _ _ U). subst. exists s. split; [apply Reach_refl | exact U].
+Qed.
+Lemma use_t_sim : forall id ts, Sim (leaf ts) (use_t id ts) leaf.
+Proof.
+  intros id ts. unfold use_t. pose proof (use_wire_sim id (leaf ts)) as S.
+  destruct (use_wire id (leaf ts)); simpl in *; exact S.
+Qed.
+(** `GuppyObject(t, wire)` followed by the GuppyObject case of update_packed_value is one
+    LReassign step *)
+Lemma reassign_sim : forall k s vid o, wf_kind k -> objs s vid = Some o ->
+  Sim s (let '(nid, s1) := create k s in update_leaf vid nid s1) (fun x => x).
+Proof.
+  intros k s vid o W E.
+  remember (let '(nid, s1) := create k s in update_leaf vid nid s1) as r eqn:Rr.
+  assert (R : step (LReassign vid k) s = r) by (subst r; simpl; rewrite E; reflexivity).
+  clear Rr. destruct r as [s'|e]; simpl.
+  - exists [LReassign vid k]. split; [|rewrite lrun_single; exact R].
+    intros k' [[H|[]]|[j [H|[]]]]; inversion H; subst; exact W.
+  - (* the fresh object cannot be "already used" *)
+    destruct e; simpl; auto. exfalso. unfold step in R. rewrite E in R. rewrite create_eq in R. unfold create' in R.
+    cbv iota beta in R. rewrite update_leaf_eq in R. unfold update_leaf', use_wire' in R. simpl in R.
+    unfold upd at 1 in R. rewrite Nat.eqb_refl in R. simpl in R.
+    destruct (negb (droppable k)); simpl in R.
+    + destruct (dict_pop _ _); simpl in R; [|discriminate]. destruct (upd _ _ _ vid); discriminate.
+    + destruct (upd _ _ _ vid); discriminate.
+Qed.
+
+Lemma create_t_heap : forall sd t ts id ts', create_t sd t ts = (id, ts') ->
+  nloc ts' = nloc ts /\ lists ts' = lists ts /\ strs ts' = strs ts.
+Proof. intros sd t ts id ts' H. unfold create_t in H. destruct (create _ _). inversion H. simpl. auto. Qed.
+Lemma use_t_heap : forall id ts ts', use_t id ts = Ok ts' ->
+  nloc ts' = nloc ts /\ lists ts' = lists ts /\ strs ts' = strs ts.
+Proof. intros id ts ts' H. unfold use_t in H. destruct (use_wire id (leaf ts)); simpl in H; inversion H. simpl. auto. Qed.
+
+Lemma ty_of_err : forall id ts e, ty_of id ts = Err e -> forall j, e <> EAlreadyUsed j.
+Proof. intros id ts e H j. unfold ty_of in H. destruct (otys ts id); inversion H. discriminate. Qed.
+Lemma new_list_leaf : forall fr vs ts, leaf (snd (new_list fr vs ts)) = leaf ts.
+Proof. reflexivity. Qed.
+Lemma new_struct_leaf : forall fr sid vs ts, leaf (snd (new_struct fr sid vs ts)) = leaf ts.
+Proof. reflexivity. Qed.
+Lemma create_t_reach' : forall sd t ts, Reach (leaf ts) (leaf (snd (create_t sd t ts))).
+Proof. intros. destruct (create_t sd t ts) eqn:C. simpl. eapply create_t_reach. exact C. Qed.
+
+Opaque create_t use_t kind_of_ty ty_of new_list new_struct.
+
 (* ====================================================================== A. frozen values *)
 (** facts read off the source, per type case of unpack_guppy_object *)
 Lemma tuple_child_frozen_true : unpack_tuple_child_frozen true = true. Proof. reflexivity. Qed.
@@ -61,12 +185,6 @@ Proof. intros ts ts' v W E. apply (proj1 (Frozen_mono_both ts ts' W E)). Qed.
 Lemma FrozenL_mono : forall ts ts' vs, hwf ts -> ext ts ts' -> FrozenL ts vs -> FrozenL ts' vs.
 Proof. intros ts ts' v W E. apply (proj2 (Frozen_mono_both ts ts' W E)). Qed.
 
-Lemma create_t_heap : forall sd t ts id ts', create_t sd t ts = (id, ts') ->
-  nloc ts' = nloc ts /\ lists ts' = lists ts /\ strs ts' = strs ts.
-Proof. intros sd t ts id ts' H. unfold create_t in H. destruct (create _ _). inversion H. simpl. auto. Qed.
-Lemma use_t_heap : forall id ts ts', use_t id ts = Ok ts' ->
-  nloc ts' = nloc ts /\ lists ts' = lists ts /\ strs ts' = strs ts.
-Proof. intros id ts ts' H. unfold use_t in H. destruct (use_wire id (leaf ts)); simpl in H; inversion H. simpl. auto. Qed.
 Lemma same_heap_hwf_ext : forall ts ts', nloc ts' = nloc ts -> lists ts' = lists ts -> strs ts' = strs ts ->
   hwf ts -> hwf ts' /\ ext ts ts'.
 Proof.
@@ -74,6 +192,7 @@ Proof.
   - intros loc H. rewrite Li, St. apply W. lia.
   - split; [lia|]. intros loc _. rewrite Li, St. auto.
 Qed.
+Transparent new_list new_struct.
 Lemma new_list_props : forall fr vs ts v ts', hwf ts -> new_list fr vs ts = (v, ts') ->
   hwf ts' /\ ext ts ts' /\ v = VList (nloc ts) /\ lists ts' (nloc ts) = Some (fr, vs).
 Proof.
@@ -99,6 +218,8 @@ Proof.
   - simpl. unfold updm. rewrite Nat.eqb_refl. reflexivity.
 Qed.
 
+Opaque new_list new_struct.
+
 (** children of one level: if the level below yields frozen values, so does the iteration *)
 Lemma children_frozen : forall sd (rec : nat -> bool -> tst -> res (val * tst)),
   (forall id ts v ts', hwf ts -> rec id true ts = Ok (v, ts') -> hwf ts' /\ ext ts ts' /\ Frozen ts' v) ->
@@ -115,13 +236,14 @@ Proof.
     destruct (map_m _ tys tsa) as [[vs2 tsb]|] eqn:M; simpl in H; [|discriminate].
     inversion H; subst; clear H. destruct (IHt _ _ _ Wa M) as (Wb & Eb & Fb).
     split; [exact Wb | split; [eapply ext_trans; [exact E1 | eapply ext_trans; eassumption] | ]].
-    constructor; [eapply Frozen_mono; eassumption | exact Fb].
+    constructor; [exact (Frozen_mono _ _ _ Wa Eb Fa) | exact Fb].
 Qed.
 
 Lemma unpack_frozen : forall fuel sd id ts v ts', hwf ts -> unpack fuel sd id true ts = Ok (v, ts') ->
   hwf ts' /\ ext ts ts' /\ Frozen ts' v.
 Proof.
-  induction fuel as [|f IH]; intros sd id ts v ts' W H; simpl in H; [discriminate|].
+  induction fuel as [|f IH]; intros sd id ts v ts' W H; [discriminate|].
+  change (unpack (S f) sd id true ts) with (unpack_step (unpack f sd) sd id true ts) in H.
   unfold unpack_step in H. destruct (ty_of id ts) as [t|]; simpl in H; [|discriminate].
   assert (Base : forall x, Ok (x, ts) = Ok (v, ts') -> Frozen ts x -> hwf ts' /\ ext ts ts' /\ Frozen ts' v).
   { intros x E F. inversion E; subst. split; [exact W | split; [apply ext_refl | exact F]]. }
@@ -136,16 +258,17 @@ Proof.
     destruct (children_frozen sd (unpack f sd) (IH sd) _ _ _ _ W1 M) as (Wa & Ea & Fa).
     split; [exact Wa | split; [eapply ext_trans; eassumption | constructor; exact Fa]].
   - destruct n as [|n]; [apply (Base _ H); constructor|].
+    remember (repeat e (S n)) as rtys eqn:Ety. clear Ety.
     destruct (use_t id ts) as [ts1|] eqn:U; simpl in H; [|discriminate].
     apply use_t_heap in U. destruct U as (U1 & U2 & U3). destruct (same_heap_hwf_ext ts ts1 U1 U2 U3 W) as [W1 E1].
     rewrite list_child_frozen_true, list_frozen_true in H.
-    destruct (map_m _ (repeat e (S n)) ts1) as [[vs tsa]|] eqn:M; simpl in H; [|discriminate].
+    destruct (map_m _ rtys ts1) as [[vs tsa]|] eqn:M; simpl in H; [|discriminate].
     destruct (children_frozen sd (unpack f sd) (IH sd) _ _ _ _ W1 M) as (Wa & Ea & Fa).
     simpl fst in H. simpl snd in H.
     destruct (new_list true vs tsa) as [v2 ts2] eqn:NL. inversion H; subst; clear H.
     destruct (new_list_props _ _ _ _ _ Wa NL) as (Wb & Eb & -> & Lb).
     split; [exact Wb | split; [eapply ext_trans; [exact E1 | eapply ext_trans; eassumption] | ]].
-    apply FList with vs; [exact Lb | eapply FrozenL_mono; eassumption].
+    apply FList with vs; [exact Lb | exact (FrozenL_mono _ _ _ Wa Eb Fa)].
   - destruct (use_t id ts) as [ts1|] eqn:U; simpl in H; [|discriminate].
     apply use_t_heap in U. destruct U as (U1 & U2 & U3). destruct (same_heap_hwf_ext ts ts1 U1 U2 U3 W) as [W1 E1].
     rewrite struct_child_frozen_true, struct_frozen_true in H.
@@ -155,5 +278,273 @@ Proof.
     destruct (new_struct true sid vs tsa) as [v2 ts2] eqn:NS. inversion H; subst; clear H.
     destruct (new_struct_props _ _ _ _ _ _ Wa NS) as (Wb & Eb & -> & Lb).
     split; [exact Wb | split; [eapply ext_trans; [exact E1 | eapply ext_trans; eassumption] | ]].
-    apply FStruct with sid vs; [exact Lb | eapply FrozenL_mono; eassumption].
+    apply FStruct with sid vs; [exact Lb | exact (FrozenL_mono _ _ _ Wa Eb Fa)].
+Qed.
+
+Lemma unpack_S : forall f sd id fr ts, unpack (S f) sd id fr ts = unpack_step (unpack f sd) sd id fr ts.
+Proof. reflexivity. Qed.
+Lemma from_py_S : forall f sd v ts, from_py (S f) sd v ts = from_py_step (from_py f sd) sd v ts.
+Proof. reflexivity. Qed.
+Lemma upd_fresh_S : forall f sd v t ts, upd_fresh (S f) sd v t ts = upd_step (upd_fresh f sd) sd v t ts.
+Proof. reflexivity. Qed.
+Lemma eval_f_S : forall f en e ts, eval_f (S f) en e ts = eval_step (eval_f f en) en e ts.
+Proof. reflexivity. Qed.
+Lemma unpack_0 : forall sd id fr ts, unpack 0 sd id fr ts = Err EStuck. Proof. reflexivity. Qed.
+Lemma from_py_0 : forall sd v ts, from_py 0 sd v ts = Err EStuck. Proof. reflexivity. Qed.
+Lemma upd_fresh_0 : forall sd v t ts, upd_fresh 0 sd v t ts = Err EStuck. Proof. reflexivity. Qed.
+Lemma eval_f_0 : forall en e ts, eval_f 0 en e ts = Err EStuck. Proof. reflexivity. Qed.
+Opaque unpack from_py upd_fresh eval_f.
+
+(* ================================================= B. the tree layer refines the leaf layer *)
+Lemma Sim_bind_pure : forall X Y s (r : res X) (k : X -> res Y) q,
+  (forall e, r = Err e -> forall id, e <> EAlreadyUsed id) -> (forall x, r = Ok x -> Sim s (k x) q) -> Sim s (bind r k) q.
+Proof.
+  intros X Y s [x|e] k q E K; simpl; [apply K; reflexivity|].
+  destruct e; simpl; auto. exfalso. eapply E; reflexivity.
+Qed.
+Lemma tys_of_err : forall ids ts e, tys_of ids ts = Err e -> forall j, e <> EAlreadyUsed j.
+Proof.
+  induction ids as [|i ids IH]; intros ts e H j; simpl in H; [discriminate|].
+  destruct (ty_of i ts) eqn:T; simpl in H; [|inversion H; subst; eapply ty_of_err; exact T].
+  destruct (tys_of ids ts) eqn:T2; simpl in H; [discriminate|]. inversion H; subst. eapply IH; exact T2.
+Qed.
+
+Lemma map_m_sim : forall A B (f : A -> tst -> res (B * tst)),
+  (forall a ts, Sim (leaf ts) (f a ts) (fun r => leaf (snd r))) ->
+  forall l ts, Sim (leaf ts) (map_m f l ts) (fun r => leaf (snd r)).
+Proof.
+  intros A B f F. induction l as [|a l IH]; intros ts; simpl; [apply Reach_refl|].
+  eapply Sim_bind; [apply F|]. intros x _. eapply Sim_bind; [apply IH|]. intros y _. simpl. apply Reach_refl.
+Qed.
+Lemma iter_i_sim : forall A (f : nat -> A -> tst -> res tst),
+  (forall i a ts, Sim (leaf ts) (f i a ts) leaf) ->
+  forall l i ts, Sim (leaf ts) (iter_i f i l ts) leaf.
+Proof.
+  intros A f F. induction l as [|a l IH]; intros i ts; simpl; [apply Reach_refl|].
+  eapply Sim_bind; [apply F|]. intros x _. apply IH.
+Qed.
+Lemma all_ok_sim : forall A (f : A -> tst -> res (bool * tst)),
+  (forall a ts, Sim (leaf ts) (f a ts) (fun r => leaf (snd r))) ->
+  forall l ts, Sim (leaf ts) (all_ok f l ts) (fun r => leaf (snd r)).
+Proof.
+  intros A f F. induction l as [|a l IH]; intros ts; simpl; [apply Reach_refl|].
+  eapply Sim_bind; [apply F|]. intros x _. destruct (fst x); [apply IH | simpl; apply Reach_refl].
+Qed.
+Lemma use_all_sim : forall ids ts, Sim (leaf ts) (use_all ids ts) leaf.
+Proof.
+  induction ids as [|i ids IH]; intros ts; simpl; [apply Reach_refl|].
+  eapply Sim_bind; [apply use_t_sim|]. intros x _. apply IH.
+Qed.
+
+Ltac sim_err := apply Sim_err; intros; discriminate.
+Ltac sim_ok := first [ apply Reach_refl | simpl; apply Reach_refl | simpl; rewrite ?new_list_leaf, ?new_struct_leaf; apply Reach_refl | apply create_t_reach' ].
+Ltac sim_go :=
+  repeat first
+  [ sim_err
+  | solve [eauto with sim]
+  | match goal with |- Sim _ (Ok _) _ => unfold Sim; sim_ok end
+  | match goal with
+    | C : create_t _ _ ?ts = (_, _) |- Sim (leaf ?ts) _ _ =>
+      apply (Sim_pre _ _ _ _ _ (create_t_reach _ _ _ _ _ C)); clear C
+    end
+  | match goal with |- Sim _ (bind (ty_of ?a ?b) _) _ =>
+      apply Sim_bind_pure; [intros ? T; exact (ty_of_err _ _ _ T) | intros ? ?] end
+  | match goal with |- Sim _ (bind (tys_of ?a ?b) _) _ =>
+      apply Sim_bind_pure; [intros ? T; exact (tys_of_err _ _ _ T) | intros ? ?] end
+  | match goal with |- Sim _ (bind _ _) _ => eapply Sim_bind; [solve [eauto with sim] | intros ? ?] end
+  | match goal with |- Sim _ (match ?x with _ => _ end) _ => destruct x eqn:? end ].
+
+#[export] Hint Resolve use_t_sim use_all_sim : sim.
+
+Lemma unpack_step_sim : forall rec sd,
+  (forall id fr ts, Sim (leaf ts) (rec id fr ts) (fun r => leaf (snd r))) ->
+  forall id fr ts, Sim (leaf ts) (unpack_step rec sd id fr ts) (fun r => leaf (snd r)).
+Proof.
+  intros rec sd R id fr ts. unfold unpack_step.
+  assert (Ch : forall b tys ts, Sim (leaf ts) (map_m (fun t ts => let '(cid, ts1) := create_t sd t ts in rec cid b ts1) tys ts) (fun r => leaf (snd r))).
+  { intros b tys ts0. apply map_m_sim. intros a ts1. destruct (create_t sd a ts1) eqn:C.
+    apply (Sim_pre _ _ _ _ _ (create_t_reach _ _ _ _ _ C)). apply R. }
+  sim_go; try (eapply Sim_bind; [apply Ch | intros ? ?]); sim_go.
+Qed.
+Lemma unpack_sim : forall fuel sd id fr ts, Sim (leaf ts) (unpack fuel sd id fr ts) (fun r => leaf (snd r)).
+Proof.
+  induction fuel as [|f IH]; intros; [rewrite unpack_0; sim_err | rewrite unpack_S; apply unpack_step_sim; intros; apply IH].
+Qed.
+
+Lemma from_py_step_sim : forall rec sd,
+  (forall v ts, Sim (leaf ts) (rec v ts) (fun r => leaf (snd r))) ->
+  forall v ts, Sim (leaf ts) (from_py_step rec sd v ts) (fun r => leaf (snd r)).
+Proof.
+  intros rec sd R v ts. unfold from_py_step.
+  pose proof (map_m_sim _ _ rec R) as M.
+  assert (Fl : forall loc l i ts, Sim (leaf ts) (iter_i (fun i ft ts =>
+               match strs ts loc with
+               | Some (_, _, vals) =>
+                 r <- rec (nth i vals VNone) ts ;;
+                 t <- ty_of (fst r) (snd r) ;;
+                 if ty_eqb t ft then use_t (fst r) (snd r) else Err EType
+               | None => Err EStuck
+               end) i l ts) leaf).
+  { intros loc l i ts0. apply iter_i_sim. intros i0 a ts1. sim_go. }
+  destruct v; sim_go; try (eapply Sim_bind; [first [apply M | apply Fl] | intros ? ?]); sim_go.
+Qed.
+Lemma from_py_sim : forall fuel sd v ts, Sim (leaf ts) (from_py fuel sd v ts) (fun r => leaf (snd r)).
+Proof.
+  induction fuel as [|f IH]; intros; [rewrite from_py_0; sim_err | rewrite from_py_S; apply from_py_step_sim; intros; apply IH].
+Qed.
+
+Lemma upd_step_sim : forall rec sd,
+  (forall v t ts, Sim (leaf ts) (rec v t ts) (fun r => leaf (snd r))) ->
+  forall v t ts, Sim (leaf ts) (upd_step rec sd v t ts) (fun r => leaf (snd r)).
+Proof.
+  intros rec sd R v t ts. unfold upd_step. destruct (create_t sd t ts) as [oid ts0] eqn:C.
+  destruct v as [vid| | |vs|loc|loc].
+  - (* GuppyObject: one LReassign step *)
+    destruct (objs (leaf ts) vid) as [o|] eqn:E; [|sim_err].
+    apply Sim_bind_pure; [intros ? T; exact (ty_of_err _ _ _ T) | intros tv _].
+    destruct (ty_eqb tv t); [|sim_err].
+    pose proof (reassign_sim (kind_of_ty 8 sd t) (leaf ts) vid o (kind_of_ty_wf _ _ _) E) as S.
+    destruct (create_t_leaf _ _ _ _ _ C) as [CL _]. rewrite <- CL in S.
+    eapply Sim_bind; [exact S|]. intros x _. simpl. apply Reach_refl.
+  - sim_go.
+  - sim_go.
+  - sim_go. apply all_ok_sim. intros a ts1. apply R.
+  - sim_go. eapply Sim_bind; [|intros ? ?; sim_go].
+    apply iter_i_sim. intros i a ts1. sim_go.
+  - sim_go. eapply Sim_bind; [|intros ? ?; sim_go].
+    apply iter_i_sim. intros i a ts1. sim_go.
+Qed.
+Lemma upd_fresh_sim : forall fuel sd v t ts, Sim (leaf ts) (upd_fresh fuel sd v t ts) (fun r => leaf (snd r)).
+Proof.
+  induction fuel as [|f IH]; intros; [rewrite upd_fresh_0; sim_err | rewrite upd_fresh_S; apply upd_step_sim; intros; apply IH].
+Qed.
+
+Lemma eval_step_sim : forall rec en,
+  (forall e ts, Sim (leaf ts) (rec e ts) (fun r => leaf (snd r))) ->
+  forall e ts, Sim (leaf ts) (eval_step rec en e ts) (fun r => leaf (snd r)).
+Proof.
+  intros rec en R e ts. unfold eval_step. pose proof (map_m_sim _ _ rec R) as M.
+  destruct e; sim_go; try (eapply Sim_bind; [first [apply R | apply M] | intros ? ?]); sim_go.
+Qed.
+Lemma eval_f_sim : forall fuel en e ts, Sim (leaf ts) (eval_f fuel en e ts) (fun r => leaf (snd r)).
+Proof.
+  induction fuel as [|f IH]; intros; [rewrite eval_f_0; sim_err | rewrite eval_f_S; apply eval_step_sim; intros; apply IH].
+Qed.
+Lemma eval_sim : forall en e ts, Sim (leaf ts) (eval en e ts) (fun r => leaf (snd r)).
+Proof. intros. apply eval_f_sim. Qed.
+
+Lemma call_fn_sim : forall sd params rty args ts, Sim (leaf ts) (call_fn sd params rty args ts) (fun r => leaf (snd r)).
+Proof.
+  intros. unfold call_fn, from_py_all.
+  eapply Sim_bind; [apply map_m_sim; intros; apply from_py_sim | intros ? ?].
+  eapply Sim_bind; [apply use_all_sim | intros ? ?]. sim_go.
+  eapply Sim_bind.
+  - apply iter_i_sim. intros i a ts1. sim_go. eapply Sim_bind; [apply upd_fresh_sim | intros ? ?]. sim_go.
+  - intros ? ?. sim_go. apply unpack_sim.
+Qed.
+
+#[export] Hint Resolve eval_sim call_fn_sim from_py_sim unpack_sim upd_fresh_sim : sim.
+
+Lemma mutate_err : forall m cur v e, mutate m cur v = Err e -> forall j, e <> EAlreadyUsed j.
+Proof.
+  intros m cur v e H j. destruct m; simpl in H; try discriminate.
+  - destruct cur; inversion H; discriminate.
+  - destruct (i <? length cur); inversion H; discriminate.
+  - inversion H; discriminate.
+  - inversion H; discriminate.
+Qed.
+
+Lemma exec_sim : forall sd s en ts, Sim (leaf ts) (exec sd s en ts) (fun r => leaf (snd (fst r))).
+Proof.
+  intros sd s en ts. destruct s; unfold exec, eval_all.
+  - sim_go.
+  - eapply Sim_bind; [apply map_m_sim; intros; apply eval_sim | intros ? ?]. sim_go.
+  - sim_go.
+  - sim_go.
+  - sim_go. apply Sim_bind_pure; [intros ? T; exact (mutate_err _ _ _ _ T) | intros ? ?]. sim_go.
+  - sim_go.
+    match goal with H : new_list _ _ _ = _ |- _ =>
+      pose proof (f_equal (fun p => leaf (snd p)) H) as HL; cbv beta in HL; rewrite new_list_leaf in HL end.
+    unfold Sim. simpl in *. rewrite <- HL. apply Reach_refl.
+  - sim_go.
+Qed.
+Lemma exec_body_sim : forall sd body en ts, Sim (leaf ts) (exec_body sd body en ts) (fun r => leaf (fst r)).
+Proof.
+  intros sd. induction body as [|s body IH]; intros en ts; simpl; [apply Reach_refl|].
+  eapply Sim_bind; [apply exec_sim | intros [[en' ts'] [v|]] _]; simpl; [apply Reach_refl | apply IH].
+Qed.
+Lemma receive_inputs_sim : forall sd params ts, Sim (leaf ts) (receive_inputs sd params ts) (fun r => leaf (snd r)).
+Proof.
+  intros. unfold receive_inputs. apply map_m_sim. intros a ts1. sim_go.
+Qed.
+Lemma return_inouts_sim : forall sd ins ts, Sim (leaf ts) (return_inouts sd ins ts) leaf.
+Proof.
+  intros. unfold return_inouts. apply iter_i_sim. intros i a ts1. sim_go.
+Qed.
+
+(** everything trace_function does before the leak check *)
+Definition trace_pre (sd : sdefs) (params : list (ty * bool)) (rty : ty) (body : list stmt) : res tst :=
+  r <- receive_inputs sd params tst0 ;;
+  let en : env := fun i => nth_error (fst r) i in
+  r2 <- exec_body sd body en (snd r) ;;
+  ro <- from_py 8 sd (snd r2) (fst r2) ;;
+  t <- ty_of (fst ro) (snd ro) ;;
+  if negb (ty_eqb t rty) then Err EType else
+  ts2 <- (match t with TNone | TTup [] => Ok (snd ro) | _ => use_t (fst ro) (snd ro) end) ;;
+  return_inouts sd (combine (fst r) params) ts2.
+Lemma trace_function_split : forall sd params rty body,
+  trace_function sd params rty body = bind (trace_pre sd params rty body) (fun ts => end_check (leaf ts)).
+Proof.
+  intros. unfold trace_function, trace_pre.
+  destruct (receive_inputs sd params tst0) as [r|]; simpl; [|reflexivity].
+  destruct (exec_body _ _ _ _) as [r2|]; simpl; [|reflexivity].
+  destruct (from_py 8 sd (snd r2) (fst r2)) as [ro|]; simpl; [|reflexivity].
+  destruct (ty_of (fst ro) (snd ro)) as [t|]; simpl; [|reflexivity].
+  destruct (negb (ty_eqb t rty)); [reflexivity|].
+  destruct (match t with TNone | TTup [] => Ok (snd ro) | _ => use_t (fst ro) (snd ro) end); simpl; reflexivity.
+Qed.
+Lemma trace_pre_sim : forall sd params rty body, Sim st0 (trace_pre sd params rty body) leaf.
+Proof.
+  intros. unfold trace_pre. change st0 with (leaf tst0).
+  eapply Sim_bind; [apply receive_inputs_sim | intros r _].
+  eapply Sim_bind; [apply exec_body_sim | intros r2 _].
+  eapply Sim_bind; [apply from_py_sim | intros ro _].
+  apply Sim_bind_pure; [intros ? T; exact (ty_of_err _ _ _ T) | intros t _].
+  destruct (negb (ty_eqb t rty)); [sim_err|].
+  eapply Sim_bind with (p := leaf); [| intros ? ?; apply return_inouts_sim].
+  destruct t as [| | |[|? ?]| |]; try apply use_t_sim; simpl; apply Reach_refl.
+Qed.
+
+(** A second use reported anywhere in the tree is a second use at leaf level *)
+Lemma fails_is_second_use : forall id, FailsAt st0 (EAlreadyUsed id) ->
+  exists ops s k, wf_ops ops /\ lrun ops st0 = Ok s /\ kind_of (rev ops) id = Some k /\
+                  copyable k = false /\ uses (rev ops) id = 1.
+Proof.
+  intros id [s1 [[ops [W R]] U]]. pose proof (lrun_inv ops s1 W R) as [_ I].
+  pose proof (use_wire_char _ _ id I) as G. rewrite U in G. destruct G as [NA Ee].
+  destruct (kind_of (rev ops) id) as [k|] eqn:K; [|discriminate].
+  destruct I as (_ & _ & _ & KK). destruct (KK _ _ K) as (_ & _ & C1).
+  exists ops, s1, k. repeat split; auto.
+  - destruct (copyable k) eqn:C; [|reflexivity]. exfalso. apply NA. exists k. auto.
+  - destruct (copyable k) eqn:C; [exfalso; apply NA; exists k; auto|].
+    specialize (C1 eq_refl). destruct (uses (rev ops) id) eqn:Us; [exfalso; apply NA; exists k; auto | lia].
+Qed.
+
+Lemma trace_function_refines_lemma : forall sd params rty body,
+  match trace_function sd params rty body with
+  | Ok _ => exists ops, wf_ops ops /\ legal [] ops /\ ~ exists id, leaked (rev ops) id
+  | Err (ELeak id) => exists ops s, wf_ops ops /\ lrun ops st0 = Ok s /\ leaked (rev ops) id
+  | Err (EAlreadyUsed id) =>
+      exists ops s k, wf_ops ops /\ lrun ops st0 = Ok s /\ kind_of (rev ops) id = Some k /\
+                      copyable k = false /\ uses (rev ops) id = 1
+  | Err _ => True
+  end.
+Proof.
+  intros. rewrite trace_function_split. pose proof (trace_pre_sim sd params rty body) as S.
+  destruct (trace_pre sd params rty body) as [ts|e]; simpl in *.
+  - destruct S as [ops [W R]]. pose proof (leak_detected_lemma ops (leaf ts) W R) as [L1 L2].
+    destruct (end_check (leaf ts)) as [[]|e] eqn:Ec.
+    + exists ops. split; [exact W|]. split; [apply (lrun_inv ops _ W R) | apply L1; reflexivity].
+    + destruct (L2 e eq_refl) as [id [-> Hl]]. exists ops, (leaf ts). auto.
+  - destruct e; auto. apply fails_is_second_use. exact S.
 Qed.
